@@ -6,20 +6,16 @@ instances, like Go's heap), with the defaults of the package; batches handed out
 NEXT `wait` — in the heap as it is then — so an aliasing container model would show the overwritten tasks.
 
 cfg:  kind=seq
-ops:  new <k> bulk|chunk <max|def> <iv|def> | add <k> <x> | addn <k> <n> <code> <first id> | flush <k> | wait <k>
+ops:  new <k> bulk|chunk <-|t<n>,i<n>,…> (the option list, in order) | add <k> <x> | addn <k> <n> <code> <first id> | flush <k> | wait <k>
 obs:  max=<n> iv=<n> | c=<pending> sz=<bytes|-> | b=<batches> | skip
 -/
 import GoZero.Base.Trace
 import GoZero.C11.Driver
 import GoZero.C11.Containers
+import GoZero.C11.Api
 namespace GoZero.C11
 
 open GoZero
-
-/-- the package defaults (tied: tie_defaults) -/
-def defaultBulkTasks : Int := 1000
-def defaultChunkSize : Int := 1048576
-def defaultFlushInterval : Int := 1000000000
 
 structure SeqInst where
   live  : Bool := false
@@ -36,6 +32,7 @@ structure SeqSt where
   heap  : Heap Task := {}
   insts : List (Nat × SeqInst) := []
   dead  : Bool := false
+  n     : Nat := 0          -- lines of this section seen so far
 
 def SeqSt.get (s : SeqSt) (k : Nat) : SeqInst := ((s.insts.find? fun p => p.1 == k).map (·.2)).getD {}
 def SeqSt.set (s : SeqSt) (k : Nat) (i : SeqInst) : SeqSt :=
@@ -92,25 +89,48 @@ def seqLine (sec : Nat) (acc : Report × SeqSt) (l : Line) : Report × SeqSt := 
   let impl := joinSp l.obs
   r := r.addCover ("seq-op-" ++ l.op.headD "?")
   if s.dead then return (r, s)
+  if impl = "stuck" then
+    -- the harness watchdog: the call did not come back and every goroutine of the package is parked
+    if s.n = 0 then return (r.addCover "seq-skipped-after-a-wedged-executor", { s with dead := true })
+    return (r.violation sec l.idx s!"{" ".intercalate l.op}: the call never returns (every goroutine is parked: the executor is wedged) — Add / Flush / Wait of the public API must come back, Wait when the callbacks of the tasks added before it have returned", { s with dead := true })
+  let s := { s with n := s.n + 1 }
   let bad := (r.mismatch sec l.idx "a known op" impl, { s with dead := true })
   let some k := (l.op.getD 1 "").toNat? | return bad
   let i := s.get k
   match l.op with
-  | ["new", _, kind, maxS, ivS] =>
+  | ["new", _, kind, optS] =>
     let chunk := kind = "chunk"
-    let max : Int := if maxS = "def" then (if chunk then defaultChunkSize else defaultBulkTasks) else maxS.toInt?.getD 0
-    let iv : Int := if ivS = "def" then defaultFlushInterval else ivS.toInt?.getD 0
-    r := r.addCover s!"seq-new-{kind}-max-{if maxS = "def" then "default" else if max ≤ 0 then "<=0" else if max = 1 then "1" else ">1"}"
-    r := r.addCover s!"seq-new-interval-{if ivS = "def" then "default" else if iv ≤ 0 then "<=0" else ">0"}"
+    -- the option list the harness passed, in order: t<n> = WithBulkTasks / WithChunkBytes, i<n> = With…Interval
+    let toks : List (Bool × Int) := if optS = "-" then [] else (optS.splitOn ",").filterMap fun t =>
+      match (String.ofList (t.toList.drop 1)).toInt? with
+      | some v => if t.startsWith "t" then some (true, v) else if t.startsWith "i" then some (false, v) else none
+      | none => none
+    if optS ≠ "-" ∧ toks.length ≠ (optS.splitOn ",").length then return bad
+    -- the constructor of Api.lean, applied to that list
+    let ex : Executor :=
+      if chunk then newChunkExecutor (toks.map fun p => if p.1 then ChunkOpt.bytes p.2 else ChunkOpt.interval p.2)
+      else newBulkExecutor (toks.map fun p => if p.1 then BulkOpt.tasks p.2 else BulkOpt.interval p.2)
+    let max : Int := ex.threshold
+    let iv : Int := ex.interval
+    let nT := (toks.filter (·.1)).length
+    let nI := (toks.filter (!·.1)).length
+    let maxS := if nT = 0 then "def" else toString max
+    let ivS := if nI = 0 then "def" else toString iv
+    r := r.addCover s!"seq-new-{kind}-max-{if nT = 0 then "default" else if max ≤ 0 then "<=0" else if max = 1 then "1" else ">1"}"
+    r := r.addCover s!"seq-new-interval-{if nI = 0 then "default" else if iv ≤ 0 then "<=0" else ">0"}"
+    if toks.isEmpty then r := r.addCover "seq-new-without-options"
+    if nT ≥ 2 then r := r.addCover "seq-new-threshold-option-repeated"
+    if nI ≥ 2 then r := r.addCover "seq-new-interval-option-repeated"
+    if (toks.head?.map (·.1)) = some false ∧ nT ≥ 1 then r := r.addCover "seq-new-interval-option-before-threshold-option"
     if s.insts.any (fun p => p.1 != k ∧ p.2.live) then r := r.addCover "seq-second-executor-in-section"
     if i.live then r := r.addCover "seq-executor-replaced-in-slot"
     -- the property's quantifier is "for all thresholds and intervals": the ones the caller gave must be the ones in force
     let gotMax := kvInt l.obs "max" (-999)
     let gotIv := kvInt l.obs "iv" (-999)
     if gotMax ≠ max then
-      r := r.violation sec l.idx s!"{kind} executor built with threshold {maxS}: its container flushes at {gotMax}, not at {max} — tasks are not executed when the size threshold the caller configured is reached"
+      r := r.violation sec l.idx s!"{kind} executor built with options {optS} (threshold {maxS}): its container flushes at {gotMax}, not at {max} — tasks are not executed when the size threshold the caller configured is reached"
     if gotIv ≠ iv then
-      r := r.violation sec l.idx s!"{kind} executor built with flush interval {ivS}: the PeriodicalExecutor ticks every {gotIv}ns, not every {iv}ns — the periodic flush does not happen at the configured interval"
+      r := r.violation sec l.idx s!"{kind} executor built with options {optS} (flush interval {ivS}): the PeriodicalExecutor ticks every {gotIv}ns, not every {iv}ns — the periodic flush does not happen at the configured interval"
     let inew : SeqInst := { live := true, chunk := chunk, b := { maxTasks := max }, c := { maxChunkSize := max }, max := gotMax }
     return (r, s.set k inew)
   | _ =>
@@ -141,6 +161,9 @@ def seqLine (sec : Nat) (acc : Report × SeqSt) (l : Line) : Report × SeqSt := 
     let m := measure i c (kvStr l.obs "sz" "-")
     if c > 0 ∧ m ≥ i.max then
       r := r.violation sec l.idx s!"the size threshold is reached ({if i.chunk then "chunk" else "bulk"} container holds {m} >= max {i.max}, {c} tasks) but the batch was not taken out for execution"
+    -- the wrappers' Add accept every task (they return nil): an error tells the caller the task was NOT accepted
+    if kvNat l.obs "e" 0 > 0 then
+      r := r.violation sec l.idx s!"{if i.chunk then "ChunkExecutor" else "BulkExecutor"}.Add returned an error for {kvNat l.obs "e" 0} task(s): Add accepts every task (the property's 'accepted by Add'), an error return makes the caller treat an executed task as rejected (or a rejected one is never executed)"
     if l.op.headD "" = "flush" ∧ c > 0 then
       r := r.violation sec l.idx s!"{c} tasks are still in the container after Flush has returned"
     -- (b) the model
